@@ -4,7 +4,7 @@ import RaftVerif.Proofs.SimCluster
 # Proofs/NoPanicHup — `Raft.tick` and a stepped `MsgHup` never throw (given an election-timeout draw)
 
 * `noErr_step_hup'` / `noErr_step_hup`: a local `MsgHup` on a well-formed log (PreVote or not).
-* `noErr_tick'` / `noErr_tick`: the tick of a leader (heartbeat, no CheckQuorum) and of a non-leader (election).
+* `noErr_tick'` / `noErr_tick`: the tick of a leader (heartbeat, `MsgCheckQuorum`) and of a non-leader (election).
 * `campaign_done`, `tick_done_inv`: the `RawNode` operations under the node invariant of the simulation.
 -/
 set_option linter.unusedSimpArgs false
@@ -42,21 +42,55 @@ theorem noErr_step_beat {r : Raft} (hs : r.state = .leader) (i : Id) :
     Live.step_leader_dispatch 2 _ r hs (Or.inl rfl) (Or.inr (Or.inl rfl))] at he
   exact no_panic_stepLeader_beat 2 _ r rfl e he
 
-/-- the heartbeat tick of a leader without CheckQuorum -/
-theorem noErr_tickHeartbeat {r : Raft} (hs : r.state = .leader) (hcq : r.cfg.checkQuorum = false) :
+/-- the `MsgCheckQuorum` a leader's tick steps (CheckQuorum) never throws, given a draw; it leaves a follower, or a
+leader -/
+theorem noErr_step_checkQuorum {r : Raft} (hs : r.state = .leader) (hd : r.draws ≠ []) (i : Id) :
+    NoErr (step stepFuel { typ := .checkQuorum, «from» := i }) r := by
+  intro e he
+  rw [show stepFuel = 2 + 1 from rfl,
+    Live.step_leader_dispatch 2 _ r hs (Or.inl rfl) (Or.inl rfl), Live.stepLeader_checkQuorum_run _ _ _ rfl] at he
+  split at he
+  · cases he
+  · cases hdr : r.draws with
+    | nil => exact hd hdr
+    | cons d rest =>
+      rw [becomeFollower_run r.term 0 r, hdr] at he
+      cases he
+
+/-- the heartbeat tick of a leader -/
+theorem noErr_tickHeartbeat {r : Raft} (hs : r.state = .leader) (hd : r.draws ≠ []) :
     NoErr tickHeartbeat r := by
   unfold tickHeartbeat
-  simp only [np, wp, hcq, hs, Spec.trivial, Bool.false_eq_true, false_implies, true_and, and_true, implies_true]
-  exact ⟨fun _ _ => ⟨fun _ _ _ => noErr_step_beat rfl _, fun _ _ _ => noErr_step_beat rfl _⟩,
-    fun _ _ _ => noErr_step_beat rfl _⟩
+  cases hcq : r.cfg.checkQuorum with
+  | false =>
+    simp only [np, wp, hcq, hs, Spec.trivial, Bool.false_eq_true, false_implies, true_and, and_true, implies_true]
+    exact ⟨fun _ _ => ⟨fun _ _ _ => noErr_step_beat rfl _, fun _ _ _ => noErr_step_beat rfl _⟩,
+      fun _ _ _ => noErr_step_beat rfl _⟩
+  | true =>
+    simp only [np, wp, hcq, hs, Spec.trivial, Bool.false_eq_true, false_implies, true_and, and_true, implies_true]
+    have B : ∀ (x : Raft), x.state = .leader → ∀ i, NoErr (step stepFuel { typ := .beat, «from» := i }) x :=
+      fun x hx i => noErr_step_beat hx i
+    have C : ∀ (x : Raft), x.state = .leader → x.draws ≠ [] → ∀ i,
+        NoErr (step stepFuel { typ := .checkQuorum, «from» := i }) x :=
+      fun x hx hdx i => noErr_step_checkQuorum hx hdx i
+    have L : ∀ x : Raft, ¬ (x.state != Role.leader) = true → x.state = .leader := by
+      intro x h; simpa using h
+    refine ⟨fun _ => ⟨fun _ => ⟨?_, ?_⟩, fun h => absurd trivial h⟩,
+      fun _ _ _ => B _ rfl _⟩
+    · apply C
+      · rfl
+      · exact hd
+    rw [Spec.iff_runs]
+    intro b mid _
+    refine ⟨fun _ h _ => ?_, fun _ h _ => ?_⟩ <;> (apply B; exact L mid h)
 
-/-- **`Raft.tick` never throws** on a well-formed log, without CheckQuorum, with a draw available -/
-theorem noErr_tick' {r : Raft} (hwf : r.log.WF) (hcq : r.cfg.checkQuorum = false) (hd : r.draws ≠ []) :
+/-- **`Raft.tick` never throws** on a well-formed log, with a draw available -/
+theorem noErr_tick' {r : Raft} (hwf : r.log.WF) (hd : r.draws ≠ []) :
     NoErr Raft.tick r := by
   unfold Raft.tick
   simp only [np, wp, true_and]
   constructor
-  · intro hs; exact noErr_tickHeartbeat (by simpa using hs) hcq
+  · intro hs; exact noErr_tickHeartbeat (by simpa using hs) hd
   · intro _; exact noErr_tickElection hwf hd
 
 /-- a stepped local `MsgHup` in a state of the simulation invariant -/
@@ -68,7 +102,7 @@ theorem noErr_step_hup {val : Val} {voters : List Id} {n : Nat} {r : Raft} {nd :
 /-- `Raft.tick` in a state of the simulation invariant -/
 theorem noErr_tick {val : Val} {voters : List Id} {n : Nat} {r : Raft} {nd : Spec.Node} {msgs : List Spec.Msg}
     (hinv : RaftInv val voters n r nd msgs) (hd : r.draws ≠ []) : NoErr Raft.tick r :=
-  noErr_tick' hinv.wf hinv.st.cq hd
+  noErr_tick' hinv.wf hd
 
 /-- **`RawNode.campaign` completes** under the node invariant, given a draw -/
 theorem campaign_done {val : Val} {voters : List Id} {n : Nat} {rn : RawNode} {nd : Spec.Node} {msgs : List Spec.Msg}
